@@ -36,7 +36,7 @@ def run(p: Project, tier: str) -> Result:
                      'in all store classes; ownership of the store lists; edges delegate and pass their validated capacity; '
                      'put-after-grant cannot fail.')
     r.rule('C01.O0', 'I1 is re-established at every stable point (yield, trigger call, exit) of every store entry point / process', 60)
-    r.rule('C01.O1', 'every grant (append to reservations_put) happens only when Σ held + granted < capacity holds at that moment', 9)
+    r.rule('C01.O1', 'every grant (append to reservations_put) happens only when Σ held + granted < capacity holds at that moment', 8)   # at least one grant site per store class (two branches of one store may be merged by a refactoring)
     r.rule('C01.O2', 'every item insertion in put() consumes the validated reservation first', 7)
     r.rule('C01.O3', 'every other insertion into a holding list is a transfer (preceded by a removal from a holding list in the same atomic segment)', 10)
     r.rule('C01.O4', 'no failure exit is reachable after the reservation was consumed / the item was taken out (second capacity tests are implied by I1)', 10)
@@ -340,9 +340,8 @@ def check_edges(p: Project, r: Result):
     ok = False
     for n in walk_no_nested(init.node):
         if isinstance(n, ast.If) and any(isinstance(x, ast.Raise) for x in n.body):
-            t = ast.unparse(n.test)
-            if 'capacity' in t and 'isinstance' in t and 'int' in t and '<= 0' in t.replace('<=0', '<= 0') or \
-                    ('capacity' in t and 'isinstance' in t and '< 1' in t):
+            from .common import guard_rejects
+            if guard_rejects(n.test, ('capacity', 'self.capacity'), bad=(0, -3, 2.5, None, '4'), good=(1, 7)):
                 ok = True
     key = f'{init.key}::capacity-validation'
     if ok:
